@@ -153,6 +153,17 @@ Definition tmismatches (cs : list tcase) : list (nat * tobs) :=
               let m := tobs_of (tokenize (tc_expr c)) in
               if tobs_match m (tc_go c) then [] else [(tc_id c, m)]) cs.
 
+(* byte strings are written in hexadecimal in generated files *)
+Definition hexv (a : Ascii.ascii) : N :=
+  let n := Ascii.N_of_ascii a in
+  if N.leb 97 n then n - 87 else n - 48.
+Fixpoint hx (s : String.string) : bytes :=
+  match s with
+  | String.String a (String.String b r) => (16 * hexv a + hexv b)%N :: hx r
+  | _ => []
+  end.
+Arguments hx s%string_scope.
+
 (* short constructors for generated files *)
 Definition N_ := @VNum FloatNum.
 Definition F (neg : bool) (m e : Z) : @value FloatNum := VNum (mkf neg m e).
